@@ -46,6 +46,10 @@ type Subkey struct {
 	PublicKey  *packet.PublicKey
 	PrivateKey *packet.PrivateKey
 	Sig        *packet.Signature
+	// BindingSig is the most recent valid binding signature. It is Sig unless
+	// the subkey is revoked: Sig is then the revocation signature, which
+	// states neither the usage nor the lifetime of the subkey.
+	BindingSig *packet.Signature
 }
 
 // A Key identifies a specific public key in an Entity. This is either the
@@ -468,6 +472,9 @@ func addSubkey(e *Entity, packets *packet.Reader, pub *packet.PublicKey, priv *p
 
 			if shouldReplaceSubkeySig(subKey.Sig, sig) {
 				subKey.Sig = sig
+			}
+			if shouldReplaceSubkeySig(subKey.BindingSig, sig) {
+				subKey.BindingSig = sig
 			}
 		}
 	}
